@@ -345,10 +345,20 @@ def run(res, tier, only_case=None):
             if bl in base_idx:
                 b = parse_impl_line(bo[base_idx[bl]])
                 bv = [val for (o, val, fl, st) in b["ops"] if o == "r"]
-                if bv != rv:
+                def norm(a, b2):
+                    # the close verdict is only taken when the read is the last call of a sequence
+                    out_a, out_b = [], []
+                    for x, y in zip(a, b2):
+                        if x.count("/") != y.count("/"):
+                            x, y = "/".join(x.split("/")[:3]), "/".join(y.split("/")[:3])
+                        out_a.append(x); out_b.append(y)
+                    return out_a, out_b
+                na, nb = norm(rv, bv)
+                if len(bv) != len(rv) or na != nb:
                     res.violation("oracle", "c09:%s:read:%s:%s" % (tag, ops, hk), "%s file: read-to-end inside [%s] gives %s, without the validation calls %s" % (tag, ops, rv, bv), case)
                     continue
-            if content is not None and rv[0] != "0/%d/%s" % (len(content), sha(content)):
+            want = "0/%d/%s" % (len(content), sha(content)) if content is not None else None
+            if content is not None and rv[0] not in (want, want + "/c1"):
                 res.violation("oracle", "c09:%s:content:%s:%s" % (tag, ops, hk), "intact %s file: read-to-end inside [%s] gives %s, expected %d bytes %s" % (tag, ops, rv[0], len(content), sha(content)[:16]), case)
     for k in (0, len(lines) // 3, len(lines) - 1):
         res.sample({"tag": cases[k][0], "ops": cases[k][2], "file_hex": vlib.hexs(cases[k][1])[:300], "impl": io[k][:300]})
